@@ -99,16 +99,27 @@ def write_inputs(rng, fmt, work):
             open(path, "w", newline="").write(txt.rstrip("\r\n"))
         return out
 
+    def quats(arr):
+        q = gen.quats_of(arr["R"])
+        if len(q) >= 2 and rng.random() < .15:
+            # a sensor panning back and forth / a motion followed by its inverse: consecutive
+            # orientations whose quaternions differ only in the signs of some components
+            for k in range(1, len(q)):
+                if rng.random() < .3:
+                    sg = np.array([[1, -1, -1, -1], [1, -1, 1, 1], [1, 1, -1, -1], [-1, 1, 1, -1]][rng.integers(4)], dtype=float)
+                    q[k] = q[k - 1] * sg
+        return q
+
     def dump_(arr, path, this_fmt):
         if this_fmt == "tum":
-            open(path, "w").write(rm.write_tum_text(arr["t"], arr["p"], gen.quats_of(arr["R"])))
+            open(path, "w").write(rm.write_tum_text(arr["t"], arr["p"], quats(arr)))
             t, p, R, _ = rm.parse_tum(open(path).read())
             return path, ShadowTrajectory(R, p, t)
         if this_fmt == "kitti":
             open(path, "w").write(rm.write_kitti_text(arr["p"], arr["R"]))
             p, R = rm.parse_kitti(open(path).read())
             return path, ShadowTrajectory(R, p, None)
-        open(path, "w").write(rm.write_euroc_text(np.round(arr["t"] * 1e9), arr["p"], gen.quats_of(arr["R"]), header=bool(rng.random() < .7), extra_cols=int([9, 0, 3][rng.integers(3)]), eol=["\n", "\n", "\r\n"][rng.integers(3)]))
+        open(path, "w").write(rm.write_euroc_text(np.round(arr["t"] * 1e9), arr["p"], quats(arr), header=bool(rng.random() < .7), extra_cols=int([9, 0, 3][rng.integers(3)]), eol=["\n", "\n", "\r\n"][rng.integers(3)]))
         t, p, R, _ = rm.parse_euroc(open(path).read())
         return path, ShadowTrajectory(R, p, t)
 
@@ -220,6 +231,7 @@ def draw_options(rng, fmt, trajs, ref, meta, work, force=None):
     if on("transform", .4):
         o["right"] = bool(rng.random() < .5)
         o["propagate"] = o["right"] and bool(rng.random() < .4)
+        o["propagate_flag_on_left"] = (not o["right"]) and bool(rng.random() < .2)  # (no effect on the left)
         o["invert"] = bool(rng.random() < .4)
         path, M, form, s = write_transform(rng, work, sim_ok=True, ext=meta["ext"])
         o["tf"] = M
@@ -228,7 +240,7 @@ def draw_options(rng, fmt, trajs, ref, meta, work, force=None):
         argv += ["--transform_right" if o["right"] else "--transform_left", path]
         if o["invert"]:
             argv.append("--invert_transform")
-        if o["propagate"]:
+        if o["propagate"] or o["propagate_flag_on_left"]:
             argv.append("--propagate_transform")
     if on("plane", .25):
         o["plane"] = ["xy", "xz", "yz"][rng.integers(3)]
